@@ -35,7 +35,7 @@ OID = ['o10', 'o9', 'o2']
 SID = ['s2', 's1', 's3']
 ROUTES = ['dense', 'nested', 'triples', 'triples0', 'dict', 'rows', 'csr', 'csc', 'coo', 'lil', 'dok',
           'csr_unsorted', 'csr_stored0', 'colread', 'sort_inverse', 'TT', 'copy', 'filter_all', 'nnzread',
-          'subsample_full']
+          'matrix_data_zero', 'subsample_full']
 
 
 def route(name, D, oids, sids, omd, smd, ttype):
@@ -79,6 +79,17 @@ def route(name, D, oids, sids, omd, smd, ttype):
     if name == 'csr_stored0':
         rows, cols = np.nonzero(np.ones_like(D))
         return T(sp.csr_matrix((D[rows, cols], (rows, cols)), shape=D.shape))
+    if name == 'matrix_data_zero':
+        # an entry of the exposed matrix overwritten with 0: the zero stays stored
+        zeros = np.argwhere(D == 0)
+        if len(zeros) == 0:
+            return None
+        i, j = (int(x) for x in zeros[0])
+        D2 = D.copy()
+        D2[i, j] = 7.0
+        t = T(D2)
+        t.matrix_data[i, j] = 0.0
+        return t
     t = T(D.copy())
     if name == 'colread':
         t.data(sids[0], 'sample')
@@ -315,7 +326,7 @@ def check(case, acc, tmp):
         else:
             acc.count('clause:queries')
     # single-field neighbours must be unequal – against three representations of the base
-    reps = [x for x in tabs if x[0] in ('dense', 'colread', 'csr_unsorted')]
+    reps = [x for x in tabs if x[0] in ('dense', 'colread', 'csr_unsorted', 'matrix_data_zero')]
     for label, args in neighbours(D, oids, sids, omd, smd, ttype):
         for nroute in ('dense', 'csc'):
             try:
@@ -358,7 +369,7 @@ B_CONTENTS = {
     'c6': ([[1], [0], [2]], True),
     'c7': ([[3, 0, 0], [0, 0, 3], [0, 3, 0]], False),
 }
-B_ROUTES = ['dense', 'csc', 'csr_unsorted', 'csr_stored0', 'coo', 'colread']
+B_ROUTES = ['dense', 'csc', 'csr_unsorted', 'csr_stored0', 'coo', 'colread', 'matrix_data_zero']
 
 
 def b_starts():
@@ -373,6 +384,8 @@ def b_starts():
         smd = [{'g': 'w%d' % j} for j in range(Mm)] if md else None
         m = M(oids, sids, D.tolist(), omd, smd, 'OTU table')
         for rn in B_ROUTES:
+            if route(rn, D, oids, sids, omd, smd, 'OTU table') is None:
+                continue        # route not applicable to this content
             S['%s/%s' % (cname, rn)] = (
                 (lambda rn=rn, D=D, oids=oids, sids=sids, omd=omd, smd=smd:
                  route(rn, D, oids, sids, omd, smd, 'OTU table')), m)
